@@ -34,6 +34,7 @@ var execs = map[string]func(op Op) any{}
 
 var opTimeout = 10 * time.Second
 var opDrain = 120 * time.Second
+var runaways = 0
 
 /* ops with their own internal watchdog get a generous outer one */
 func timeoutFor(op string) time.Duration {
@@ -71,6 +72,10 @@ func runOp(op Op) (result any, panicMsg string) {
 		select {
 		case <-ch:
 		case <-time.After(opDrain):
+			/* a call that never comes back keeps a core busy for good: wait less for the next
+			   one, and give up on this process after three of them */
+			runaways++
+			opDrain = 5 * time.Second
 		}
 		return map[string]any{"timeout": true}, ""
 	}
@@ -119,6 +124,10 @@ func main() {
 				}
 				enc.Encode(op)
 				out.Flush()
+				if runaways >= 3 {
+					fmt.Fprintln(os.Stderr, "three calls of the real code never returned; abandoning the remaining ops of this batch")
+					os.Exit(3)
+				}
 			}
 			if err != nil {
 				break
